@@ -275,4 +275,66 @@ Proof.
       destruct (a_sort_key a) eqn:Hsk; cbv iota in Hser; exact (write_size OP tm R a (adm_t et) Hrt l None bf Hall Hser).
 Qed.
 
+
+(* ---- the member loops ---- *)
+Inductive ordered : list field -> list field -> Prop :=
+| ord_nil seen : ordered seen []
+| ord_cons seen f r :
+    (forall a n, classify f = Some (MkArray a n) -> size_member_seen seen f n) ->
+    (forall n, classify f = Some (MkBytes n) -> size_member_seen seen f n) ->
+    ordered (seen ++ [f]) r -> ordered seen (f :: r).
+
+Lemma member_typed_cond self f : member_typed self f -> f_cond f = None.
+Proof. unfold member_typed. destruct (classify f) eqn:Hk; [|contradiction]. intros _. eapply classify_cond; eassumption. Qed.
+
+Lemma loop_rt : forall fs seen e self total b rest processed,
+  ordered seen fs -> NoDup (map f_name (seen ++ fs)) ->
+  env_ok seen e self -> (forall f, In f fs -> member_typed self f) ->
+  ser_fields total self false fs = Ok b ->
+  exists e', des_loop fs processed [] [] e (b ++ rest) = Ok (e', rest) /\ env_ok (seen ++ fs) e' self.
+Proof.
+  induction fs as [|f r IH]; intros seen e self total b rest processed Hord Hnd Henv Hty Hser.
+  - cbn in Hser. injection Hser as <-. exists e. rewrite app_nil_r. split; [reflexivity | exact Henv].
+  - rewrite ser_fields_cons in Hser.
+    destruct (ser_field total self false f) as [bf| |] eqn:Hf; cbn [bind] in Hser; try discriminate.
+    destruct (ser_fields total self false r) as [br| |] eqn:Hr; cbn [bind] in Hser; try discriminate.
+    injection Hser as <-. inversion Hord as [|? ? ? Ha Hb Hrest]; subst.
+    pose proof (Hty f (or_introl eq_refl)) as Htf. pose proof (member_typed_cond self f Htf) as Hcond.
+    destruct (member_step seen e self total f bf (br ++ rest) Henv Htf Ha Hb Hf) as (v & Hload & Hv).
+    assert (Henv' : env_ok (seen ++ [f]) ((f_name f, v) :: e) self).
+    { intros g Hg. apply in_app_or in Hg as [Hg|[<-|[]]].
+      - rewrite eget_cons_neq; [now apply Henv|].
+        rewrite map_app in Hnd. cbn [map] in Hnd. apply NoDup_remove_2 in Hnd. intros Heq. apply Hnd.
+        apply in_or_app. left. rewrite Heq. now apply in_map.
+      - rewrite eget_cons_eq. exact Hv. }
+    destruct (IH (seen ++ [f]) ((f_name f, v) :: e) self total br rest (f_name f :: processed) Hrest
+               ltac:(rewrite <- app_assoc; exact Hnd) Henv' (fun g Hg => Hty g (or_intror Hg)) Hr) as (e' & Hloop & Henv'').
+    exists e'. split; [|rewrite <- app_assoc in Henv''; exact Henv''].
+    cbn [deserialize_loop]. rewrite Hcond. unfold deserialize_field. rewrite (cond_local_none e f Hcond). cbn [bind].
+    rewrite <- app_assoc, Hload. cbn [bind fst snd find drain_queue]. exact Hloop.
+Qed.
+
+Lemma size_fields_ok : forall fs self total b,
+  (forall f, In f fs -> member_typed self f) -> ser_fields total self false fs = Ok b ->
+  size_fields OP tm R allfs self fs = Ok (Z.of_nat (length b)).
+Proof.
+  induction fs as [|f r IH]; intros self total b Hty Hser.
+  - cbn in Hser. injection Hser as <-. reflexivity.
+  - rewrite ser_fields_cons in Hser.
+    destruct (ser_field total self false f) as [bf| |] eqn:Hf; cbn [bind] in Hser; try discriminate.
+    destruct (ser_fields total self false r) as [br| |] eqn:Hr; cbn [bind] in Hser; try discriminate.
+    injection Hser as <-.
+    pose proof (member_size_ok self total f bf (Hty f (or_introl eq_refl)) Hf) as Hs.
+    cbn [size_fields]. destruct (cond_self tm R allfs self f) as [c| |]; cbn [bind] in Hs |- *; try discriminate.
+    rewrite Hs. cbn [bind]. rewrite (IH self total br (fun g Hg => Hty g (or_intror Hg)) Hr). cbn [bind].
+    rewrite app_length. f_equal. lia.
+Qed.
+
+(* the first member is only special for the @size member, which this fragment does not have *)
+Lemma ser_fields_first total self fs : ser_fields total self true fs = ser_fields total self false fs.
+Proof.
+  destruct fs as [|f r]; [reflexivity|]. rewrite !ser_fields_cons. f_equal.
+  unfold serialize_field, is_size_first. now rewrite no_size_attr.
+Qed.
+
 End StructRT.
